@@ -71,6 +71,14 @@ def run_scenario(task):
         if R0 or task.get("pass_empty_R"):
             kw["initial_recovereds"] = R0
 
+    if weighted and (sum(w) + len(I0)) % 2 == 0:
+        # half of the weighted scenarios start from a graph object that was simulated on before while it carried other
+        # weights (edited in place since): what the object "remembers" must not matter
+        from .common import prime_other_weights
+        pkw = dict(kw)
+        pkw["tmax"] = tmin + 0.25 / max(scale, 1e-9)
+        prime_other_weights(G, lambda g_: f(g_, tau, gam, initial_infecteds=list(I0), **pkw))
+
     def fn_full():
         sim = f(G, tau, gam, initial_infecteds=list(I0), return_full_data=True, **kw)
         return observe.full_data_observation(sim, nodes)
